@@ -29,7 +29,7 @@ from xdsl.dialects.builtin import (
 INDEX_W = 64
 
 
-class RefUnsupported(BaseException):
+class RefUnsupported(Unsupported):
     """The reference semantics has no rule for this op: the obligation is inconclusive."""
 
 
